@@ -21,7 +21,10 @@ MACROS = {
     'unicode': r'\\(?:[0-9A-Fa-f]{6}|[0-9A-Fa-f]{1,5}(?![0-9A-Fa-f]))'
     r'(?:\r\n|[ \t\r\n\f]|(?![ \t\r\n\f]))',
     # 'escape': r'{unicode}|\\[ -~\200-\777]',
-    'escape': r'{unicode}|\\[^\n\r\f0-9a-f]',
+    # a backslash before a hex digit of either case is always a {unicode}
+    # escape; left to both alternatives, a run of such escapes in a string
+    # that does not end is split in exponentially many ways
+    'escape': r'{unicode}|\\[^\n\r\f0-9a-fA-F]',
     'nmstart': r'[_a-zA-Z]|{nonascii}|{escape}',
     'nmchar': r'[-_a-zA-Z0-9]|{nonascii}|{escape}',
     'string1': r'"([^\n\r\f\\"]|\\{nl}|{escape})*"',
